@@ -401,8 +401,11 @@ class SimpleHeatPumpCycle:
 
         def _build_streams(profile: np.ndarray, is_hot: bool): 
 
+            # Profile enthalpies are in J/kg whereas _get_metrics works in kJ/kg.
             if is_hot:
-                self._m_dot = self._Q_cond / abs(profile[0,0] - profile[-1,0])
+                m_dot = self._Q_cond / abs(profile[0,0] - profile[-1,0])
+            else:
+                m_dot = self._Q_cond / (self._q_cond * 1000)
             sc = StreamCollection()
             for i in range(len(profile) - 1):
                 h1, T1 = profile[i]
@@ -422,7 +425,7 @@ class SimpleHeatPumpCycle:
                     name=name,
                     t_supply=T1,
                     t_target=t_target,
-                    heat_flow=self._m_dot*abs(h1 - h2),  # or m_dot * (h1 - h2), depending on your model
+                    heat_flow=m_dot*abs(h1 - h2),  # or m_dot * (h1 - h2), depending on your model
                     is_process_stream=False,
                     dt_cont=self._dtcont,
                 )
